@@ -1390,7 +1390,10 @@ func (b *beacon) GetManyFromOrderPosition(orderPosition *OrderPosition) ([]treas
 		}
 	}
 
-	// Apply offset
+	// Apply offset (a negative offset or limit cannot address anything)
+	if orderPosition.From < 0 || orderPosition.Limit < 0 {
+		return nil, errors.New("from and limit must not be negative")
+	}
 	actualStart := startIdx + orderPosition.From
 	if actualStart > endIdx {
 		return []treasure.Treasure{}, nil
